@@ -1186,6 +1186,9 @@ impl CanonicalizeContext {
 						}
 					}
 					let mathml = if element_name == "mmultiscripts" {clean_mmultiscripts(mathml).unwrap()} else {mathml};
+					if element_name == "mmultiscripts" && name(&mathml) != "mmultiscripts" {
+						return Some(mathml);		// there were no scripts: the base stands for the whole element
+					}
 					if !is_chemistry_off(mathml) {
 						let likely_chemistry = likely_adorned_chem_formula(mathml);
 						// debug!("likely_chemistry={}, {}", likely_chemistry, mml_to_string(&mathml));
@@ -1524,8 +1527,8 @@ impl CanonicalizeContext {
 						i += 2;
 					}
 				}
-				if new_children.len() == 1 {
-					mathml = as_element(new_children[0]);
+				if new_children.len() == 1 || (new_children.len() == 2 && name(&as_element(new_children[1])) == "mprescripts") {
+					mathml = as_element(new_children[0]);		// no scripts are left: only the base remains
 				} else {
 					mathml.replace_children(new_children);
 				}
